@@ -96,6 +96,84 @@ def nths(t):
 def has_arg(t, callee_suffix, pred):
     return any(pred(a) for x in absx.leaves(t, lambda x: x[0] == 'call' and x[1].endswith(callee_suffix)) for a in x[2][1:])
 
+
+# ---------------------------------------------------------------------------------------
+# Integer fields of response values.  Which function turns the content octets into the integer - lber's parse_uint, a local
+# helper, a fold or a loop written in place - is not read off the source: the decoder itself is interpreted with the primitive
+# content of the component fixed to a literal octet string, for every string of a finite set chosen as in C07 B6 / C03
+# T1.unsigned-reader-big-endian (every length 0..12; distinct octets, high-bit octets, all-ones, zero-padded forms), and the value
+# that reaches the field must be the big-endian value of the octets, taken modulo the cast to the field's type (`as i32` of the
+# u64 = the low 32 bits read as two's complement).  Nothing of the library is executed: the typed HIR is interpreted on literals.
+
+def int_vectors():
+    vecs = [b'\xc8', b'\x03\xe8', b'\x00\xc8', b'\x7f\xff\xff\xff']      # page sizes 200, 1000, 200 with a sign octet, maxInt
+    for n in range(0, 9):
+        vecs += [bytes(range(1, n + 1)), bytes(0x80 + i for i in range(n)), b'\xff' * n, b'\x00' * n]
+        if n:
+            vecs += [b'\x00' * (n - 1) + b'\x81', b'\x7f' + b'\x00' * (n - 1)]
+    for pad in range(1, 5):
+        vecs += [b'\x00' * pad + bytes(range(1, 9)), b'\x00' * pad + b'\xff' * 8, b'\x00' * (pad + 7) + b'\x2a', b'\x00' * pad + b'\x01\x00']
+    vecs += [bytes([v]) for v in range(0, 6)] + [b'\x00' + bytes([v]) for v in range(0, 4)] + [b'\x01\x00', b'\x01\x01']
+    return sorted(set(vecs), key=lambda x: (len(x), x))
+
+def literal_inline(c):
+    """the decoders' own modules and lber's unsigned reader are interpreted; everything else stays an opaque call (so a reader
+    the interpreter cannot follow leaves a non-literal in the field and the rule fails closed)"""
+    return 'ldap3::controls_impl::' in c or 'ldap3::exop_impl::' in c or c == 'lber::parse::parse_uint'
+
+def eval_with_content(f, B, ordinal, octets):
+    """The paths of decoder B when the primitive content of the component read at cursor position `ordinal` is the literal octet
+    string (either spelling of "the content": expect_primitive() of that element, or its PL::P payload); everything else about the
+    value stays symbolic."""
+    of = lambda t: nths(t) == [ordinal]
+    def content(I, cal, args, node, st):
+        if cal.endswith('::expect_primitive') and len(args) == 1 and of(args[0]):
+            return [absx.Out('val', ('ctor', 'Some', (('lit', octets),)), st)]
+        return None
+    def payload(base, name, st):
+        if name == 'payload' and of(base):
+            return ('ctor', 'PL::P', (('lit', octets),))
+        return None
+    return absx.Interp(f, B, summaries=[content], unroll=16, inline=literal_inline, field_hook=payload, combinators=True).run()
+
+def wrap_int(v, ty):
+    rng = absx.INT_RANGE[ty]
+    return (v - rng[0]) % (rng[1] - rng[0] + 1) + rng[0]
+
+def field_type(f, struct_path, field):
+    for v in f.items[struct_path]['variants']:
+        for fl in v['fields']:
+            if fl['name'] == field:
+                return fl['ty']
+    return None
+
+def check_int_field(ctx, f, B, rule, inst, ordinal, struct_path, field):
+    """field `field` of the decoded struct = big-endian value of the content octets of component `ordinal`, modulo the field's type"""
+    ty = field_type(f, struct_path, field)
+    if ty not in absx.INT_RANGE:
+        ctx.fail(rule, inst, loc(B.root), 'field %s of %s has type %s, not an integer type' % (field, struct_path, ty)); return
+    wrong, vecs = [], int_vectors()
+    for v in vecs:
+        outs = [o for o in eval_with_content(f, B, ordinal, v) if o.kind != 'div']
+        want = wrap_int(int.from_bytes(v, 'big'), ty)
+        got = [dict(o.val[2]).get(field, ('unk',)) if o.kind in ('val', 'ret') and o.val[0] == 'struct' else ('unk', o.kind) for o in outs]
+        if not got or any(g != ('lit', want) for g in got):
+            wrong.append((v.hex() or '(empty)', sorted({absx.fmt(g)[:40] for g in got}) or 'no returning path', want))
+    high = [w for w in wrong if any(c >= '8' for c in w[0][::2])]
+    ctx.add(rule, inst, loc(B.root), not wrong,
+            'the integer reader does not yield the big-endian value of the content octets (as %s): evaluated exactly on %d literal octet strings '
+            '(lengths 0..12), %d differ%s; (octets, decoded, big-endian value as %s): %s'
+            % (ty, len(vecs), len(wrong), ', all of them with an octet >= 0x80' if wrong and len(high) == len(wrong) else '', ty, wrong[:4]))
+
+def content_reads(terms, ordinal):
+    """the expect_primitive(..) call terms over the element read at cursor position `ordinal` that occur in the given terms"""
+    out = []
+    for t in terms:
+        for x in absx.leaves(t, lambda x: x[0] == 'call' and x[1].endswith('::expect_primitive') and len(x[2]) == 1 and nths(x[2][0]) == [ordinal]):
+            if x not in out:
+                out.append(x)
+    return out
+
 def run(ctx):
     f = ctx.facts
     # ------------------------------------------------------------------ encoders
@@ -192,29 +270,44 @@ def run(ctx):
     for o in outs:
         fl = dict(o.val[2])
         size, cookie = fl.get('size', ('unk',)), fl.get('cookie', ('unk',))
-        ok = nths(size) == [0] and all(c in calls_in(size) for c in ('parse_tag', 'expect_constructed', 'parse_uint', 'expect_primitive', 'match_id', 'match_class')) \
-            and has_arg(size, 'match_id', lambda a: a == ('lit', 2)) and has_arg(size, 'match_class', lambda a: a == ('ctor', 'TagClass::Universal', ()))
-        ctx.add('Y.paged.size', 'child 0', loc(B.root), ok, 'size is not parse_uint of child 0 as universal INTEGER primitive: %s' % absx.fmt(size)[:100])
+        # where the integer comes from: the content of child 0 of the parsed value, required to be a universal INTEGER primitive;
+        # how the content octets become the integer is decided below by literal evaluation, whatever function does it
+        src = content_reads([size], 0)
+        ok = nths(size) == [0] and all(c in calls_in(size) for c in ('parse_tag', 'expect_constructed', 'expect_primitive', 'match_id', 'match_class')) \
+            and len(src) == 1 and has_arg(src[0], 'match_id', lambda a: a == ('lit', 2)) and has_arg(src[0], 'match_class', lambda a: a == ('ctor', 'TagClass::Universal', ()))
+        ctx.add('Y.paged.size', 'child 0', loc(B.root), ok, 'size is not computed from the content of child 0 required to be a universal INTEGER primitive: %s' % absx.fmt(size)[:100])
         ctx.add('Y.paged.cookie', 'child 1', loc(B.root), nths(cookie) == [1] and 'expect_primitive' in calls_in(cookie), 'cookie is not the content of child 1')
         ctx.add('Y.paged.input', 'val', loc(B.root), 'parse_tag' in calls_in(size) and absx.leaves(size, lambda x: x[0] == 'param') != [], 'the parsed bytes are not the control value')
+    check_int_field(ctx, f, B, 'Y.paged.size', 'integer reader', 0, 'ldap3::controls_impl::paged_results::PagedResults', 'size')
     # SyncState
     B, outs = parse_paths('<ldap3::controls_impl::content_sync::SyncState as ' + CP)
-    table = {}
     for o in outs:
         fl = dict(o.val[2])
         stt = fl.get('state', ('unk',))
-        code = [a[3][1] for a, t in o.st.pc if t and a[0] == 'bin' and a[1] == 'Eq' and a[3][0] == 'lit' and 'parse_uint' in calls_in(a[2]) and nths(a[2]) == [0]]
-        if stt[0] == 'ctor' and code:
-            table[code[0]] = stt[1]
-            src = [a[2] for a, t in o.st.pc if t and a[0] == 'bin' and a[1] == 'Eq' and 'parse_uint' in calls_in(a[2])][0]
-            ctx.add('Y.syncstate.state-source', str(code[0]), loc(B.root), has_arg(src, 'match_id', lambda a: a == ('lit', 10)) and has_arg(src, 'match_class', lambda a: a == ('ctor', 'TagClass::Universal', ())),
-                    'state is not read from child 0 as universal ENUMERATED')
+        # where the state comes from: whatever the path learned about the content of child 0 (the comparisons that selected the
+        # variant), that child having been required to be a universal ENUMERATED primitive
+        src = content_reads([a for a, _t in o.st.pc] + [stt], 0)
+        ctx.add('Y.syncstate.state-source', absx.fmt(stt)[:40], loc(B.root), bool(src) and all(has_arg(x, 'match_id', lambda a: a == ('lit', 10))
+                and has_arg(x, 'match_class', lambda a: a == ('ctor', 'TagClass::Universal', ())) for x in src),
+                'state is not read from child 0 as universal ENUMERATED')
         ctx.add('Y.syncstate.uuid', absx.fmt(stt), loc(B.root), nths(fl.get('entry_uuid', ('unk',))) == [1] and 'expect_primitive' in calls_in(fl['entry_uuid']), 'entryUUID is not the content of child 1')
         ck = fl.get('cookie', ('unk',))
         ctx.add('Y.syncstate.cookie', absx.fmt(stt) + ('|some' if ck != ('ctor', 'None', ()) else '|none'), loc(B.root),
                 ck == ('ctor', 'None', ()) or (ck[0] == 'ctor' and ck[1] == 'Some' and nths(ck) == [2] and 'expect_primitive' in calls_in(ck)), 'cookie is not the optional content of child 2')
-    want = {0: 'EntryState::Present', 1: 'EntryState::Add', 2: 'EntryState::Modify', 3: 'EntryState::Delete'}     # RFC 4533 2.3
-    ctx.add('Y.syncstate.state-table', 'EntryState', loc(B.root), table == want, 'state table %s, RFC 4533: %s' % (table, want))
+    # which state each value denotes: the decoder is interpreted with the ENUMERATED's content fixed to literal octet strings (the
+    # integer reader - parse_uint or any other - and the selection of the variant are evaluated exactly, see check_int_field)
+    want = {0: 'EntryState::Present', 1: 'EntryState::Add', 2: 'EntryState::Modify', 3: 'EntryState::Delete'}     # RFC 4533 2.2
+    table, wrong, vecs = {}, [], int_vectors()
+    for v in vecs:
+        res = [o for o in eval_with_content(f, B, 0, v) if o.kind != 'div']
+        val = int.from_bytes(v, 'big')
+        got = sorted({absx.fmt(dict(o.val[2]).get('state', ('unk',)))[:30] if o.kind in ('val', 'ret') and o.val[0] == 'struct' else o.kind for o in res})
+        if len(v) == 1 and len(got) == 1:
+            table[val] = got[0]
+        if got != ([want[val]] if val in want else []):
+            wrong.append((v.hex() or '(empty)', got or 'rejected', want.get(val, 'rejected')))
+    ctx.add('Y.syncstate.state-table', 'EntryState', loc(B.root), not wrong and table == want,
+            'state table %s, RFC 4533: %s; evaluated exactly on %d literal contents of the ENUMERATED, (octets, decoded state, expected) differ at %s' % (table, want, len(vecs), wrong[:4]))
     # SyncDone (inductive argument over the component loop)
     check_syncdone(ctx, f)
     # parse_syncinfo
